@@ -166,7 +166,10 @@ CLAIMED = {
         note=PROOF_NOTE + " The Parseval theorem is for one amplitude per FFT bin (1D spectra, and 2D spectra after the code's sum over direction); 'different seeds differ' is a statement about PCG64 and is only sampled."),
     "C12": dict(
         text=("Lean 4 theorems: argmax returns a value that bounds every element and is attained, so the peak-method level of "
-              "any spectrum with E f^p <= c everywhere and = c somewhere (a c f^-p range) is exactly c; scaling the spectrum by "
+              "any spectrum with E f^p <= c everywhere and = c somewhere (a c f^-p range) is exactly c; mean method: argmin "
+              "points at a smallest relative variance, relative variances are >= 0 and vanish on constant windows, so if any "
+              "scanned window lies in a range where E f^p is constant the selected window is itself flat and (no start-index "
+              "clip, non-zero mean) the returned level is exactly its constant value; scaling the spectrum by "
               "c > 0 selects the same frequency (same a1, b1, direction) and scales the level, hence u*, by c; "
               "u* = 8 pi^3 E_eq / (4 g I beta) (ℝ, linear in E_eq); directions are returned in [0, 360) congruent to the "
               "unwrapped angle; the meteorological convention is (270 - theta) mod 360 in [0, 360); U10 = u*/kappa ln(10/z0) "
@@ -174,7 +177,7 @@ CLAIMED = {
               "transcribed with its index clipping), u*, direction, convention and U10 against estimate_u10_from_spectrum for "
               "batches in four layouts and non-default parameters; analytic-tail, scaling and 2D = 1D oracles on the code."),
         design="6/C12", technique="Lean 4 proof (argmax invariant, scaling invariance, modular range) + Float-model correspondence",
-        note=PROOF_NOTE + " The mean-method window selection is transcribed and compared, its 'zero-variance window' property is only exercised (analytic tails)."),
+        note=PROOF_NOTE + " For the mean method the theorem gives the level of the selected flat window; that this window lies in *the* c f^-4 range (and not in another flat range) is the premise of the property and is exercised by the analytic-tail oracle."),
     "C05": dict(
         text=("Lean 4 theorems at ℝ over the model of mem.py / mem2.py: for every multiplier vector (hence for whatever Newton "
               "- converged, out of iterations, line search failed, any linear solver -, scipy or the first guess end with) the "
